@@ -564,6 +564,15 @@ for _fam in HIST_FAMILIES:
 # does to the one Planet object all components share); the profile is read again without being re-initialised
 HIST_FAMILIES['guillot'] = HIST_FAMILIES['guillot'] + [['__planet__', ['planet_mass', 4.0]],
                                                        ['__planet__', ['planet_radius', 0.5]]]
+# two interior nodes: each node pressure and temperature moved on its own (incl. past the other node: rejected)
+HIST_FAMILIES['npoint2'] = [['T_point1', 2300.0], ['T_point2', 500.0], ['P_point1', 1e2], ['P_point1', 3e4], ['P_point2', 3e2],
+                            ['P_point2', 1e5], ['T_surface', 700.0], ['T_top', 2000.0]]
+# a small alphabet explored one level deeper: a temperature made negative (rejected), something else changed while it
+# is, and the temperature repaired - what comes back then is the profile of the settings then in force
+HIST_DEEP = {'guillot-err': [['T_irr', -800.0], ['T_irr', 900.0], ['kappa_v1', 0.05], ['kappa_irr', 0.1], ['alpha', 0.8],
+                             ['T_int_guillot', -50.0], ['T_int_guillot', 300.0]],
+             'npoint-err': [['P_point1', 1e7], ['P_point1', 1e2], ['T_point1', 2500.0], ['T_top', 300.0],
+                            ['T_point1', 90000.0], ['T_surface', 900.0]]}
 
 
 def hist_make(fam, net=None):
@@ -571,6 +580,13 @@ def hist_make(fam, net=None):
     settings directly, not by repeating the setter calls)."""
     from taurex.data.profiles.temperature import NPoint, Guillot2010, Rodgers2000, Isothermal
     net = dict(net or {})
+    fam = {'guillot-err': 'guillot', 'npoint-err': 'npoint'}.get(fam, fam)
+    if fam == 'npoint2':
+        return NPoint(T_surface=net.get('T_surface', 1500.0), T_top=net.get('T_top', 1000.0),
+                      temperature_points=[net.get('T_point1', 1300.0), net.get('T_point2', 1100.0)],
+                      pressure_points=[net.get('P_point1', 1e4), net.get('P_point2', 1e1)],
+                      P_surface=net.get('P_surface', 1e6), P_top=net.get('P_top', 1e-1), smoothing_window=10,
+                      limit_slope=600.0)
     if fam == 'npoint':
         return NPoint(T_surface=net.get('T_surface', 1500.0), T_top=net.get('T_top', 1000.0),
                       temperature_points=[net.get('T_point1', 1200.0)], pressure_points=[net.get('P_point1', 1e3)],
@@ -640,6 +656,10 @@ def hist_fn(case):
             net[name] = value
         names.append(name)
         got = hist_eval(live)
+        again = hist_eval(live)         # read a second time without touching anything: the same verdict, the same values
+        r.check(again[0] == got[0] and (got[0] != 'profile' or np.array_equal(again[1], got[1], equal_nan=True)),
+                'history-verdict', 'history-second-read-differs/%s' % fam, first=got[0], second=again[0],
+                hist=case['hist'][:k + 1])
         from taurex.exceptions import InvalidModelException
         try:
             f = fresh(netkw=net)        # the net settings as constructor arguments
@@ -652,7 +672,7 @@ def hist_fn(case):
         fin = True
         if got[0] == 'profile':
             fin = bool(np.all(np.isfinite(got[1])) and np.all(got[1] > 0))
-            if not fin and fam == 'guillot' and not (0.0 <= net.get('alpha', 0.3) <= 1.0) and \
+            if not fin and fam in ('guillot', 'guillot-err') and not (0.0 <= net.get('alpha', 0.3) <= 1.0) and \
                     bool(np.any(np.isnan(got[1]))):
                 # the recorded defect of the constructor path (no validation of T^4), reached through the setter
                 r.check(False, 'rejects-unphysical', 'guillot/accepted-unphysical/alpha-outside-0-1/returned-nan',
@@ -757,6 +777,9 @@ def explore(ctx):
     for fam, alpha in HIST_FAMILIES.items():
         dd = depth if len(alpha) <= 9 or ctx.tier == 'thorough' else depth - 1
         for d in range(1, dd + 1):
+            hc += [{'fam': fam, 'hist': [list(o) for o in h]} for h in _it.product(alpha, repeat=d)]
+    for fam, alpha in HIST_DEEP.items():
+        for d in range(1, depth + 2):
             hc += [{'fam': fam, 'hist': [list(o) for o in h]} for h in _it.product(alpha, repeat=d)]
     ctx.bounds.update(history_depth=depth, histories=len(hc))
     ctx.run_cases('hist_fn', hc, phase='histories')
